@@ -366,50 +366,102 @@ def rule_bits(R):
     fl = cs.root_local(fa)
     if fl is None:
         raise AnchorLost("Connect:flags-local")
-    inits = [cs.rvalue_term(s["rv"]) for bb, j, s in cs.assigns() if s["dst"]["l"] == fl and not s["dst"]["proj"]
-             and not ("bin" in s["rv"] and s["rv"]["bin"] == "BitOr")]
-    R.ob("bits/connect/init", len(inits) == 1 and inits[0][0] == "const" and inits[0][2] == 0,
-         "CONNECT flags start from 0 (bit 0 reserved = 0)", where=cs.span)
-    got = []
-    for (bb, x, span) in contributions(f, cs, lambda l: l == fl):
-        vs = valueset.evaluate(f, x)
-        gs = guards_of(cs, bb)
-        gtxt = " & ".join("%s=%s" % (g[0][-60:], g[1]) for g in gs)
-        if vs is not None and len(vs) == 1 and bin(list(vs)[0]).count("1") > 1:
-            # `flags |= A | B`: one contribution per bit
-            v = list(vs)[0]
-            for bit in range(8):
-                if v & (1 << bit):
-                    got.append((frozenset({1 << bit}), gtxt, span, x))
+    # decision table: for every feasible path to the point where the flags byte is serialised, which conditions held
+    # (clean_start, will present, will retained, credentials present) and which values the byte can have.  One reading for
+    # `flags |= BIT` statements, for `a | b | c` of conditional values, and for a helper that computes the byte.
+    from .. import paths as _paths
+    stop_bb = flags_field[0].bb
+
+    def cond_of(si):
+        r, n = chain(si["subject"])
+        s_ = peel(si["subject"])
+        if n[-1:] == ["clean_start"]:
+            return "clean"
+        if si["enum"] == "core::option::Option" and n[-1:] == ["will"]:
+            return "will"
+        if si["enum"] == "core::option::Option" and n[-1:] == ["auth"]:
+            return "auth"
+        if (si["enum"] or "").endswith("Retain") and any(is_call(x, "retained_flag") for x in walk(s_)):
+            return "retain-enum"
+        if is_call(s_, "PartialEq::eq", "eq") and any(is_call(x, "retained_flag") for x in walk(s_)) \
+                and any(x[0] == "agg" and x[3] in ("Retained", "NotRetained") for x in walk(s_)):
+            return "retain-eq:" + [x[3] for x in walk(s_) if x[0] == "agg" and x[3] in ("Retained", "NotRetained")][0]
+        return None
+    rows = []
+    undecided = None
+    for lf in _paths.explore(cs, 0, lambda t: False, lambda b, x: False, stop_pred=lambda b, x: x == stop_bb, max_paths=4000):
+        if lf["kind"] == "limit":
+            undecided = "path limit"
+        if lf["kind"] != "stop":
             continue
-        got.append((frozenset(vs) if vs is not None else None, gtxt, span, x))
-    want = [
-        ({1 << 1}, ["clean_start=True"], "clean start: bit 1, when clean_start"),
-        ({1 << 2}, ["will=Some"], "will flag: bit 2, when a will is configured"),
-        ({0, 1 << 3, 2 << 3}, ["will=Some"], "will QoS: bits 4-3 = will QoS, when a will is configured"),
-        ({1 << 5}, ["will=Some", "Retained"], "will retain: bit 5, when the will is retained"),
-        ({1 << 6}, [("is_some", "auth=Some")], "password flag: bit 6, when auth is configured"),
-        ({1 << 7}, [("is_some", "auth=Some")], "user name flag: bit 7, when auth is configured"),
-    ]
-    used = set()
-    for (vals, needles, desc) in want:
-        hit = None
-        for i, (vs, gtxt, span, x) in enumerate(got):
-            if i in used or vs != frozenset(vals):
-                continue
-            if all((n_ in gtxt) if isinstance(n_, str) else any(a_ in gtxt for a_ in n_) for n_ in needles):
-                hit = i
+        p_ = lf["path"]
+        conds = {}
+        for i in range(len(p_) - 1):
+            if p_[i] in cs.switches:
+                si = cs.switch_info(p_[i])
+                c_ = cond_of(si)
+                if c_ is None:
+                    continue
+                lab = [k for k, t in si["edges"].items() if t == p_[i + 1]]
+                lab = lab[0] if lab else "otherwise"
+                if c_ == "clean":
+                    conds["clean"] = (lab is True)
+                elif c_ in ("will", "auth"):
+                    conds[c_] = (lab == "Some") if lab in ("Some", "None") else None
+                elif c_ == "retain-enum":
+                    conds["retain"] = (lab == "Retained") if lab in ("Retained", "NotRetained") else (("Retained" in si.get("otherwise_variants", [])) if lab == "otherwise" else None)
+                else:
+                    which = c_.split(":")[1]
+                    conds["retain"] = (lab is True) if which == "Retained" else (lab is False)
+        v = _paths.value_on_path(cs, p_[:-1] + [stop_bb], fl)
+        vs = valueset.evaluate(f, v) if v is not None else None
+        rows.append((conds, vs, v))
+    qos_src = any(any(is_call(y, "qos_level") for y in walk(v)) for (c_, vs, v) in rows if v is not None and c_.get("will"))
+
+    def check(desc, pred):
+        bad = None
+        for (c_, vs, v) in rows:
+            if vs is None:
+                bad = "value not evaluable on a path with %s" % c_
                 break
-        if hit is not None:
-            used.add(hit)
-        R.ob("bits/connect/%s" % desc.split(":")[0].replace(" ", "-"), hit is not None,
-             "CONNECT flags [MQTT 5 3.1.2.3] — %s (contributions found: %s)" % (desc, [(sorted(g[0]) if g[0] else None, g[1][-80:]) for g in got]),
-             where=cs.span)
-    R.ob("bits/connect/no-extra", len(used) == len(got),
-         "no other contribution to the CONNECT flags byte (found %d, expected %d)" % (len(got), len(want)), where=cs.span)
-    # the will QoS contribution must come from the will's QoS
-    okq = any(vs == frozenset({0, 8, 16}) and any(is_call(y, "qos_level") for y in walk(x)) for (vs, g, sp, x) in got)
-    R.ob("bits/connect/will-qos-source", okq, "the will QoS bits are taken from the configured will's QoS", where=cs.span)
+            why = pred(c_, vs)
+            if why:
+                bad = "%s on a path with %s (values %s)" % (why, c_, sorted(vs)[:8])
+                break
+        R.ob("bits/connect/%s" % desc.split(":")[0].replace(" ", "-"), bool(rows) and bad is None and undecided is None,
+             "CONNECT flags [MQTT 5 3.1.2.3] — %s%s" % (desc, "" if bad is None else " — " + bad), where=cs.span)
+
+    def bit_iff(bit, cond_name, when_unknown=None):
+        def pred(c_, vs):
+            want = c_.get(cond_name)
+            if cond_name == "retain" and not c_.get("will"):
+                want = False
+            if want is None:
+                want = when_unknown
+            if want is None:
+                return None
+            for x in vs:
+                if bool(x & bit) != bool(want):
+                    return "bit %d is %s although %s=%s" % (bit.bit_length() - 1, "set" if x & bit else "clear", cond_name, want)
+            return None
+        return pred
+    R.ob("bits/connect/init", bool(rows) and all(vs is not None and all((x & 1) == 0 for x in vs) for (c_, vs, v) in rows),
+         "CONNECT flags start from 0 (bit 0 reserved = 0)", where=cs.span)
+    check("clean start: bit 1, when clean_start", bit_iff(1 << 1, "clean", when_unknown=None))
+    check("will flag: bit 2, when a will is configured", bit_iff(1 << 2, "will", when_unknown=False))
+
+    def qos_pred(c_, vs):
+        if c_.get("will"):
+            got = set(x & 0x18 for x in vs)
+            return None if got == {0, 8, 16} else "will QoS bits are %s, expected the will's QoS in bits 4-3 {0, 8, 16}" % sorted(got)
+        return None if all((x & 0x18) == 0 for x in vs) else "will QoS bits set without a will"
+    check("will QoS: bits 4-3 = will QoS, when a will is configured", qos_pred)
+    check("will retain: bit 5, when the will is retained", bit_iff(1 << 5, "retain", when_unknown=False))
+    check("password flag: bit 6, when auth is configured", bit_iff(1 << 6, "auth", when_unknown=False))
+    check("user name flag: bit 7, when auth is configured", bit_iff(1 << 7, "auth", when_unknown=False))
+    R.ob("bits/connect/no-extra", bool(rows) and all(c_.get("clean") is not None for (c_, vs, v) in rows),
+         "every path to the serialisation of the flags byte decided clean_start, will and credentials (%d paths)" % len(rows), where=cs.span)
+    R.ob("bits/connect/will-qos-source", qos_src, "the will QoS bits are taken from the configured will's QoS", where=cs.span)
 
     # subscription options
     so = f.bodies.get("<types::SubscriptionOptions as packets::_::_serde::Serialize>::serialize")
